@@ -12,7 +12,7 @@ RULE = ("kind=hist (70%): histograms of every class (Histogram1D/2D/ND 3-4 axes,
         "(h1/h2/h3/special, every binning method name) followed by fills of adaptive histograms / scaling / merges; values are "
         "arbitrary doubles (not only dyadic), subnormal and huge magnitudes, 2^62-size ints. kind=doc (15%): documents written by "
         "hand with optional keys removed or damaged. kind=version (10%): running and required versions from release / pre / post "
-        "/ dev / epoch grammar and non-versions. kind=collection (5%): 0..4 members. non-trivial = hist with non-zero missed or "
+        "/ dev / epoch grammar and non-versions. kind=collection (5%): 0..4 members over the same bins, adaptive or not member by member. non-trivial = hist with non-zero missed or "
         "custom metadata or >=2 axes; doc/version/collection always")
 MODELLED = ("to_dict/_update_dict of every histogram and binning class, save_json stamps, create_from_dict, from_dict, "
             "_kwargs_from_dict and the constructors' handling of frequencies/errors2/missed/keep_missed/meta/axis names are modelled "
@@ -259,8 +259,10 @@ def gen(rng, n, tier):
             k = rng.choice([0, 1, 2, 3, 4])
             ax = gen_axis(rng, allow_adaptive=False)
             ms = []
-            for _ in range(k):
+            for j in range(k):
                 s = gen_spec(rng, ndim=1, cls="Histogram1D"); s["axes"] = [ax]
+                if ax[0] == "fixed" and ax[1] > 0 and rng.random() < 0.5:      # members over the same bins may differ in adaptivity
+                    s["axes"] = [ax[:5] + ["T"]]
                 nb = axis_len(ax); s["freq"] = [rng.randint(0, 9) for _ in range(nb)]; s["err2"] = list(s["freq"])
                 if any(x == "nan" for x in s["missed"]): s["missed"] = [0, 0, 0]
                 ms.append(spec_sx(s))
@@ -445,7 +447,6 @@ def impl(case):
             ms = [build(m) for m in d["members"]]
             name, title = uncanon(d["name"]), uncanon(d["title"])
             if ms:
-                for m in ms[1:]: m._binning = ms[0]._binning; m._binnings = [ms[0]._binnings[0]]
                 c = HistogramCollection(*ms, name=name, title=title)
             else:
                 c = HistogramCollection(binning=build_axis(d["axis"]), name=name, title=title)
